@@ -333,6 +333,9 @@ func (p c09) inject(c *core.Ctx, w *c09World, faults []fault, bexp world.Expect,
 	case "diverged":
 		c.Fail(classifyC09(w, faults), fmt.Sprintf("fault %v: start-up did not terminate: %s", faults, r.Diverge.Error()), detail())
 		return false
+	case "stalled":
+		c.Fail(classifyC09(w, faults), fmt.Sprintf("fault %v: App.Run hangs instead of returning an error (%s)", faults, r.OutcomeDetail()), detail())
+		return false
 	}
 	runs := countEvents(r, "run")
 	if anyReached {
